@@ -14,7 +14,7 @@ CLAIMED = {
  "C06": ("5 C06", HIST + "reference eligibility filter from pricing text, outcome classification per due context"),
  "C07": ("5 C07", HIST + "exact-rational reference price from the published pricing text; volume model"),
  "C08": ("5 C08", HIST + "accept-iff model of pending requests (succeeds iff pending, by designated provider, up to expiry block)"),
- "C09": ("5 C09", HIST + "lifecycle state-machine transition oracle per context per step"),
+ "C09": ("5 C09", HIST + "lifecycle state-machine transition oracle per context per step, with an emulated owning module that reacts (kill / pause / resume) from inside its callbacks; counter and solvency rules from the eligibility reference model"),
  "C10": ("5 C10", HIST + "batch-height tracker: first batch, cadence, total, no overlap"),
  "C11": ("5 C11", HIST + "queue/index/pending-marker invariant over the raw scan after every step"),
  "C12": ("5 C12", HIST + "batch bookkeeping model and recording callbacks of an emulated consumer module"),
@@ -22,10 +22,10 @@ CLAIMED = {
  "C14": ("5 C14", HIST + "minimum-deposit invariant recomputed from the pricing text"),
  "C15": ("5 C15", HIST + "definition/binding/index stability invariants + listing differential against the raw scan"),
  "C16": ("5 C16", HIST + "orphan-freedom invariant and finished-context removal rule after every block end"),
- "C17": ("5 C17", HIST + "then generated queries: gRPC vs ground truth from the raw scan, legacy querier vs gRPC (differential)"),
- "C18": ("5 C18", "stateless property-based round-trip / injectivity / prefix-scan-exactness checks over generated IDs, names and addresses (rapid; native go fuzzing in the thorough tier) + in-history lookup of every request through the issue event"),
+ "C17": ("5 C17", HIST + "then generated queries: gRPC vs ground truth from the raw scan, legacy querier vs gRPC (differential); malformed identifiers and byte-run-together arguments must be answered with nothing"),
+ "C18": ("5 C18", "stateless property-based round-trip / injectivity / prefix-scan-exactness checks over generated IDs, names and addresses (rapid; native go fuzzing in the thorough tier) + in generated histories: lookup of every request through its issue event (at issue and again later) and differential of the module's own scan functions against the raw store on every committed state"),
  "C19": ("5 C19", HIST + "then zero-height preparation, export, validate, JSON round trip, import into a pristine store, re-export (round-trip oracle)"),
- "C20": ("5 C20", HIST + "every history executed in independent keeper instances with digest comparison after each step; recovered panics are failures; boundary-shaped messages"),
+ "C20": ("5 C20", HIST + "every history executed in independent keeper instances with digest comparison after each step; one of them restarting its process (fresh keeper) before every step; recovered panics are failures; boundary-shaped messages incl. prices and promotion times at the limits of the number and calendar types"),
 }
 NOT_YET = {}
 
